@@ -69,6 +69,7 @@ type mgrEvent struct {
 	Maint  *mgrMaint  `json:"maint,omitempty"`
 	Switch *mgrSwitch `json:"switch,omitempty"`
 	Master string `json:"master,omitempty"`
+	Lag    int    `json:"lag,omitempty"` // demote: the new source
 }
 type mgrIn struct {
 	Nodes     []mgrNode  `json:"nodes"`
@@ -87,6 +88,9 @@ type mgrIn struct {
 	MaintFile bool       `json:"maint_file"`
 	AbortAtStmt int      `json:"abort_at_stmt"` // >0: the operator deletes the switch key when the n-th mutating statement of the iteration arrives
 	LockLostAt int       `json:"lock_lost_at"`  // -1 never; k: the k-th AcquireLock of iteration FaultAt returns false
+	MgrHost    int        `json:"mgr_host,omitempty"` // the process under test runs on h<MgrHost> (0 = the last host)
+	Start      string     `json:"start,omitempty"` // state the process starts in: "" = Manager | Candidate | Maintenance | FirstRun
+	OtherManager bool     `json:"other_manager,omitempty"` // the manager lock is held by another process
 	RaceSwitch *mgrSwitch `json:"race_switch,omitempty"` // a second initiator files this request while iteration FaultAt is reading last_switch (between the manager's look and its own filing)
 }
 
@@ -110,6 +114,8 @@ type mgrStep struct {
 	Restarted bool // a fresh manager process runs this iteration
 	CutNow    map[string]bool // hosts the manager cannot reach in this iteration
 	Raced     bool            // the second initiator got its request in during this iteration
+	State     appState        // which state handler ran
+	Connected bool
 }
 type mgrOut struct {
 	Steps []mgrStep
@@ -197,6 +203,9 @@ func mgrRun(in mgrIn) mgrOut {
 	w := vk.NewWorld()
 	vInstall(w)
 	mgr := fmt.Sprintf("h%d", len(in.Nodes))
+	if in.MgrHost > 0 && in.MgrHost <= len(in.Nodes) {
+		mgr = fmt.Sprintf("h%d", in.MgrHost)
+	}
 	d := newMemDCS(w, mgr)
 	d.silent = true
 	u1 := hostUUID("h1")
@@ -288,6 +297,9 @@ func mgrRun(in mgrIn) mgrOut {
 			d.rawDelete(dcs.JoinPath(pathHealthPrefix, h))
 			return
 		}
+		if app.cluster.Get(h) == nil && app.cluster.Local().Host() != h {
+			return // this process has no handle for the host (registry not loaded): the record stays as it was
+		}
 		d.rawSet(dcs.JoinPath(pathHealthPrefix, h), mgrHealth(app, w, h, kind))
 	}
 	for i, c := range in.Nodes {
@@ -308,6 +320,15 @@ func mgrRun(in mgrIn) mgrOut {
 			r[h] = *n
 		}
 		return r
+	}
+	cur := appState(stateManager)
+	if in.Start != "" {
+		cur = appState(in.Start)
+	}
+	if in.OtherManager {
+		d.mu.Lock()
+		d.lockOwner = "h0"
+		d.mu.Unlock()
 	}
 	for k := 0; k < in.Iter; k++ {
 		for _, ev := range in.Events {
@@ -369,6 +390,38 @@ func mgrRun(in mgrIn) mgrOut {
 				d.silent = true
 				va = newVApp(w, d, vAppOpts{Hostname: mgr, Dir: dir, Tune: tune})
 				app = va.app
+				cur = stateFirstRun
+			case "dcsdown":
+				d.mu.Lock()
+				d.connected = false
+				d.mu.Unlock()
+			case "dcsup":
+				d.mu.Lock()
+				d.connected = true
+				d.mu.Unlock()
+			case "otherlock": // another process takes / releases the manager lock
+				d.mu.Lock()
+				if d.lockOwner == "h0" {
+					d.lockOwner = ""
+				} else {
+					d.lockOwner = "h0"
+				}
+				d.mu.Unlock()
+			case "rmfile":
+				_ = os.Remove(va.cfg.Maintenancefile)
+			case "promote": // the operator makes this server a writable master by hand
+				w.Mu.Lock()
+				if n := w.Nodes[h]; n != nil {
+					n.Chan, n.RO, n.SuperRO = nil, false, false
+				}
+				w.Mu.Unlock()
+			case "demote": // ... or a read-only replica of h<Lag>
+				w.Mu.Lock()
+				if n := w.Nodes[h]; n != nil {
+					n.Chan, n.RO, n.SuperRO = &vk.Chan{Source: fmt.Sprintf("h%d", ev.Lag), IO: true, SQL: true}, true, true
+					n.Retrieved = n.Executed
+				}
+				w.Mu.Unlock()
 			}
 		}
 		var st mgrStep
@@ -434,14 +487,33 @@ func mgrRun(in mgrIn) mgrOut {
 		}
 		st.T0 = time.Now().UnixNano() - vEpoch
 		d.silent = false
+		st.State = cur
+		d.mu.Lock()
+		st.Connected = d.connected
+		d.mu.Unlock()
 		func() {
 			defer func() {
 				if r := recover(); r != nil {
 					st.Panic = fmt.Sprint(r)
 				}
 			}()
-			st.Next = app.stateManager()
+			switch cur {
+			case stateManager:
+				st.Next = app.stateManager()
+			case stateCandidate:
+				st.Next = app.stateCandidate()
+			case stateMaintenance:
+				st.Next = app.stateMaintenance()
+			case stateLost:
+				st.Next = app.stateLost()
+			case stateFirstRun:
+				st.Next = app.stateFirstRun()
+				vInitOpt(app, d)
+			default:
+				st.Next = cur
+			}
 		}()
+		cur = st.Next
 		d.silent = true
 		d.onGet = nil
 		synctest.Wait()
@@ -497,6 +569,10 @@ func mgrCases(in mgrIn, out mgrOut) []string {
 	perm(out.Hosts, nil)
 	var cs []string
 	for _, st := range out.Steps {
+		tag := map[appState]int64{stateManager: 0, stateCandidate: 1, stateMaintenance: 2}
+		if _, ok := tag[st.State]; !ok {
+			continue // first run / lost: not part of this model (the lost state is C08's)
+		}
 		files := vk.L([]string{vk.T("1%N", vk.B(st.Files["emerge"])), vk.T("3%N", vk.B(st.Files["maintenance"]))})
 		fa := []string{}
 		hs := []string{}
@@ -507,7 +583,7 @@ func mgrCases(in mgrIn, out mgrOut) []string {
 		for _, h := range hs {
 			fa = append(fa, vk.T(hostGal(h), vk.Z(st.FailedAfter[h])))
 		}
-		cs = append(cs, vk.T(cfgGal(out.Cfg), env, vk.L(orders), st.MemBefore, transcriptGal(st.Trans, vEpoch, ""), vk.Z(st.T0), files, mgrNextGal(st.Next),
+		cs = append(cs, vk.T(vk.Z(tag[st.State]), cfgGal(out.Cfg), env, vk.L(orders), st.MemBefore, transcriptGal(st.Trans, vEpoch, ""), vk.Z(st.T0), files, mgrNextGal(st.Next),
 			vk.L(fa), vk.B(st.Panic != ""), vk.B(st.FilesAfter["emerge"]), vk.B(st.FilesAfter["maintenance"])))
 	}
 	return cs
